@@ -15,7 +15,6 @@ Module for environment correlations.
 
 from typing import Callable, Optional, Text
 from typing import Any as ArrayLike
-from functools import lru_cache
 
 import numpy as np
 from scipy import integrate
@@ -29,6 +28,21 @@ from oqupy.util import check_true
 
 class BaseCorrelations(BaseAPIClass):
     """Base class for environment auto-correlations. """
+
+    def __setattr__(self, name, value):
+        """Set an attribute and drop all cached integrals (they may depend
+        on the attribute that is changed). """
+        super().__setattr__(name, value)
+        super().__setattr__('_integral_cache', {})
+
+    def _cached(self, function: Callable, *args):
+        """Result of `function(*args)`, cached until an attribute changes."""
+        key = (function.__name__, ) + args
+        if key not in self._integral_cache:
+            if len(self._integral_cache) >= 2 ** 10:
+                self._integral_cache.clear()
+            self._integral_cache[key] = function(*args)
+        return self._integral_cache[key]
 
     def correlation(
             self,
@@ -197,7 +211,6 @@ class CustomCorrelations(BaseCorrelations):
         """
         return self.correlation_function(tau)
 
-    @lru_cache(maxsize=2 ** 10, typed=False)
     def correlation_2d_integral(
             self,
             delta: float,
@@ -246,6 +259,12 @@ class CustomCorrelations(BaseCorrelations):
             The numerical value for the two dimensional integral
             :math:`\eta_\mathrm{shape}`.
         """
+        return self._cached(self._correlation_2d_integral,
+            delta, time_1, time_2, shape, epsrel, subdiv_limit)
+
+    def _correlation_2d_integral(
+            self, delta, time_1, time_2, shape, epsrel, subdiv_limit):
+        """Compute the 2D integral of the correlation function. """
         c_real = lambda y, x: np.real(self.correlation(x - y))
         c_imag = lambda y, x: np.imag(self.correlation(x - y))
 
@@ -409,12 +428,15 @@ class CustomSD(BaseCorrelations):
                 tmp_temperature))
         self.temperature = tmp_temperature
 
-        self._cutoff_function = \
-            lambda omega: CUTOFF_DICT[self.cutoff_type](omega, self.cutoff)
-        self._spectral_density = \
-            lambda omega: self.j_function(omega) * self._cutoff_function(omega)
-
         super().__init__(name, description)
+
+    def _cutoff_function(self, omega: ArrayLike) -> ArrayLike:
+        """The cutoff function for the current cutoff and cutoff type. """
+        return CUTOFF_DICT[self.cutoff_type](omega, self.cutoff)
+
+    def _spectral_density(self, omega: ArrayLike) -> ArrayLike:
+        """The spectral density (including the cutoff). """
+        return self.j_function(omega) * self._cutoff_function(omega)
 
     def __str__(self) -> Text:
         ret = []
@@ -515,7 +537,6 @@ class CustomSD(BaseCorrelations):
             integral = integral.real
         return integral
 
-    @lru_cache(maxsize=2 ** 10, typed=False)
     def eta_function(
             self,
             tau: ArrayLike,
@@ -549,6 +570,11 @@ class CustomSD(BaseCorrelations):
         correlation : ndarray
             The auto-correlation function :math:`C(\tau)` at time :math:`\tau`.
         """
+        return self._cached(
+            self._eta_function, tau, epsrel, subdiv_limit, matsubara)
+
+    def _eta_function(self, tau, epsrel, subdiv_limit, matsubara):
+        """Compute the eta function. """
         # real and imaginary part of the integrand
         if matsubara:
             tau = -1j * tau
@@ -740,15 +766,22 @@ class PowerLawSD(CustomSD):
         self.cutoff = tmp_cutoff
 
         # use parent class for all the rest.
-        j_function = lambda w: 2.0 * self.alpha * w ** self.zeta \
-                               * self.cutoff ** (1 - zeta)
-
-        super().__init__(j_function,
+        super().__init__(self._power_law_function,
                          cutoff=cutoff,
                          cutoff_type=cutoff_type,
                          temperature=temperature,
                          name=name,
                          description=description)
+
+    def _power_law_function(self, omega: ArrayLike) -> ArrayLike:
+        """The power law spectral density (without the cutoff) for the current
+        alpha, zeta and cutoff. """
+        return 2.0 * self.alpha * omega ** self.zeta \
+            * self.cutoff ** (1 - self.zeta)
+
+    def _spectral_density(self, omega: ArrayLike) -> ArrayLike:
+        """The spectral density (including the cutoff). """
+        return self._power_law_function(omega) * self._cutoff_function(omega)
 
     def __str__(self) -> Text:
         ret = []
